@@ -35,23 +35,43 @@ func (d *Ledger) faults(kind string, shard int, c *world.Call, mid int, conc map
 			if n > 6 && i > 3 && i < n-1 && d.R.Intn(3) != 0 {
 				continue // long loops: first three, last two, a sample of the middle
 			}
-			f := world.NewFaults()
-			f.FailKind, f.FailAt = k, i
-			r := d.W.Probe(shard, c, f)
-			ev := world.AEvent{A: "fault", Sh: shard, Fn: c.Fn, Caller: d.W.NameOf(c.Caller), Rcpt: d.W.NameOf(c.Rcpt), Args: args, Res: r.Res, Err: r.Err + r.Panic, Mid: mid,
-				X: map[string]interface{}{"kind": k, "k": i, "fired": f.Fired, "of": n}}
-			cc := map[string]interface{}{}
-			for kk, v := range conc {
-				cc[kk] = v
-			}
-			cc["kind"] = "fault"
-			cc["of"] = conc["kind"]
-			cc["fkind"], cc["fk"] = k, i
-			if err := d.T.Write(&world.ALine{Ev: ev, W: aw}, cc); err != nil {
-				panic(err)
-			}
+			d.faultLine(shard, c, mid, conc, k, i, n, aw, args)
 		}
 	}
+}
+
+// faultLine probes one (kind, k) dependency failure and writes its line.
+func (d *Ledger) faultLine(shard int, c *world.Call, mid int, conc map[string]interface{}, k string, i, n int, aw *world.AWorld, args []world.AArg) {
+	f := world.NewFaults()
+	f.FailKind, f.FailAt = k, i
+	r := d.W.Probe(shard, c, f)
+	ev := world.AEvent{A: "fault", Sh: shard, Fn: c.Fn, Caller: d.W.NameOf(c.Caller), Rcpt: d.W.NameOf(c.Rcpt), Args: args, Res: r.Res, Err: r.Err + r.Panic, Mid: mid,
+		X: map[string]interface{}{"kind": k, "k": i, "fired": f.Fired, "of": n}}
+	cc := map[string]interface{}{}
+	for kk, v := range conc {
+		cc[kk] = v
+	}
+	if conc["kind"] != "fault" {
+		cc["of"] = conc["kind"]
+	}
+	cc["kind"] = "fault"
+	cc["fkind"], cc["fk"] = k, i
+	if err := d.T.Write(&world.ALine{Ev: ev, W: aw}, cc); err != nil {
+		panic(err)
+	}
+}
+
+// oneFault re-executes one recorded fault probe (replay of a "fault" line).
+func (d *Ledger) oneFault(s *CStep) {
+	c := s.ToCall()
+	count := world.NewFaults()
+	if base := d.W.Probe(s.Shard, c, count); base.Res != "ok" {
+		return
+	}
+	destSide := !bytes.Equal(c.Caller, c.Rcpt)
+	conc := world.Describe(s.Of, s.Shard, c, s.Mid)
+	conc["dup"] = s.Dup
+	d.faultLine(s.Shard, c, s.Mid, conc, s.FKind, s.FK, count.Counts[s.FKind], d.P.World(), d.P.Args(c.Fn, c.Args, destSide))
 }
 
 // ---------------------------------------------------------------- C13: replicas and input integrity
